@@ -465,10 +465,11 @@ pub struct Scanner<'input, T> {
     /// For each flow collection we are in: whether it is a mapping, and the value
     /// [`Self::flow_mapping_started`] had when it was opened (restored when it is closed).
     flow_collections: Vec<(bool, bool)>,
-    /// Where the separation after the last block `:` ended, if it was made of tabs only.
+    /// Where the separation after the last block `:` (made of tabs only) or `?` (containing a
+    /// tab) ended.
     ///
     /// A block collection cannot start there; a scalar can.
-    tab_only_separation_end: Option<usize>,
+    no_block_collection_at: Option<usize>,
     buf_leading_break: String,
     buf_trailing_breaks: String,
     buf_whitespaces: String,
@@ -525,7 +526,7 @@ impl<'input, T: Input> Scanner<'input, T> {
             flow_mapping_started: false,
             implicit_flow_mapping_states: vec![],
             flow_collections: vec![],
-            tab_only_separation_end: None,
+            no_block_collection_at: None,
 
             buf_leading_break: String::new(),
             buf_trailing_breaks: String::new(),
@@ -2429,6 +2430,12 @@ impl<'input, T: Input> Scanner<'input, T> {
 
     fn fetch_key(&mut self) -> ScanResult {
         let start_mark = self.mark;
+        if self.flow_level == 0 && self.no_block_collection_at == Some(start_mark.index) {
+            return Err(ScanError::new_str(
+                start_mark,
+                "tabs disallowed in this context",
+            ));
+        }
         if self.flow_level == 0 {
             // Check if we are allowed to start a new key (not necessarily simple).
             if !self.simple_key_allowed {
@@ -2457,12 +2464,25 @@ impl<'input, T: Input> Scanner<'input, T> {
         }
 
         self.skip_non_blank();
-        self.skip_yaml_whitespace()?;
-        if self.input.peek() == '\t' {
-            return Err(ScanError::new_str(
-                self.mark(),
-                "tabs disallowed in this context",
-            ));
+        // Blanks, tabs included, and an optional comment separate the `?` from its key.
+        let separation = self.skip_ws_to_eol(SkipTabs::Yes)?;
+        if separation.found_tabs() && self.flow_level == 0 {
+            // A block collection cannot start after a separation that contains a tab; a scalar can
+            // (`?\tkey`). A `- ` entry is rejected at once, a key when its indicator is found.
+            self.input.lookahead(2);
+            if self.input.peek() == '-' && is_blank_or_breakz(self.input.peek_nth(1)) {
+                return Err(ScanError::new_str(
+                    self.mark(),
+                    "tabs disallowed in this context",
+                ));
+            }
+            self.no_block_collection_at = Some(self.mark.index);
+        }
+        if is_break(self.input.look_ch())
+            || !(separation.found_tabs() || separation.has_valid_yaml_ws())
+        {
+            // The key is on the following lines, or there is none.
+            self.skip_yaml_whitespace()?;
         }
         self.tokens
             .push_back(Token(Span::new(start_mark, self.mark), TokenType::Key));
@@ -2514,7 +2534,7 @@ impl<'input, T: Input> Scanner<'input, T> {
         // a block mapping there (`? a\n:\tkey: v`).
         if sk.possible
             && self.flow_level == 0
-            && self.tab_only_separation_end == Some(sk.mark.index)
+            && self.no_block_collection_at == Some(sk.mark.index)
         {
             return Err(ScanError::new_str(
                 sk.mark,
@@ -2527,7 +2547,7 @@ impl<'input, T: Input> Scanner<'input, T> {
         // A block collection cannot start after a separation made of tabs only. Inside a flow
         // collection there are no block collections and tabs are plain separation (`{"a":\t1}`).
         // A scalar may follow (`key:\tvalue`); whether it is an implicit key is only known at its
-        // ':', which checks `tab_only_separation_end`.
+        // ':', which checks `no_block_collection_at`.
         if self.input.look_ch() == '\t'
             && !self.skip_ws_to_eol(SkipTabs::Yes)?.has_valid_yaml_ws()
             && self.flow_level == 0
@@ -2539,7 +2559,7 @@ impl<'input, T: Input> Scanner<'input, T> {
                     "':' must be followed by a valid YAML whitespace",
                 ));
             }
-            self.tab_only_separation_end = Some(self.mark.index);
+            self.no_block_collection_at = Some(self.mark.index);
         }
 
         if sk.possible {
